@@ -280,10 +280,14 @@ def ref_random(spec, rng):
   return d, script
 
 
-def ref_member(spec, rng):
-  """A random member (custom points get a string)."""
+def ref_member(spec, rng, floats='random'):
+  """A random member (custom points get a string). `floats='edge'`: every float decision is 0 when 0 lies
+  in its range, else its lower bound (falsy values, boundaries)."""
   def pt(p):
     if p['t'] == 'f':
+      if floats == 'edge':
+        zero_in = p['lo'][0] <= 0 <= p['hi'][0]
+        return [{'f': [0, 1] if zero_in else list(p['lo'])}, []]
       return [{'f': dyadic(rng, p['lo'], p['hi'])}, []]
     if p['t'] == 'u':
       return [rng.choice(['abc', '', 'x']), []]
